@@ -12,12 +12,16 @@ import vlib
 
 # the command that failed -> the property that owns it ...
 OWNER = {"init": "C09", "commit": "C01", "export": "C01", "prune": "C12", "create": "C15", "delete": "C15",
-         "fetch": "C10", "push": "C10", "pull": "C10", "merge": "C10"}
+         "fetch": "C10", "push": "C10", "pull": "C10", "merge": "C10", "pushall": "C10", "pullall": "C10",
+         # growth: a branch copied / renamed with its log, reset, the log as the command line prints it (C15:
+         # "rename/copy carry the log along", "logs read newest-first"); `wrgl log` is owned by no listed
+         # property: a deviation there is printed as a NOTE line by C10's run, never a violation
+         "copy": "C15", "move": "C15", "reset": "C15", "reflog": "C15", "log": "NOTE"}
 # ... unless what differs says otherwise: completeness of history / objects after a transfer is C09's,
 # the content of a real merge (commit, conflicts file, a merge that never returns) is C05's
 _OBJECTS = r"(L|R)\.(present-missing|present-extra|commit-parents|commit-content|objects-unreadable)|unreadable|convergence|hang.*"
-_MERGED = r"merge-content|conflict-file.*|L\.commit-content|L\.commit-parents|hang-progress-bar-done-after-merge"
-WHAT = {"fetch": [(_OBJECTS, "C09")], "push": [(_OBJECTS, "C09")],
+_MERGED = r"merge-content|conflict-file.*|merge-file.*|L\.commit-content|L\.commit-parents|hang-progress-bar-done-after-merge"
+WHAT = {"fetch": [(_OBJECTS, "C09")], "push": [(_OBJECTS, "C09")], "pushall": [(_OBJECTS, "C09")], "pullall": [(_OBJECTS, "C09")],
         "pull": [(_MERGED, "C05"), (_OBJECTS, "C09")],
         "merge": [(_MERGED, "C05"), (_OBJECTS, "C12")]}
 CRASH_OWNER = "C09"   # a child that dies or hangs as a whole names no command
@@ -85,6 +89,8 @@ def run(v, prop, tier, seed, exhaustive=None):
     for idx, sig, detail in out.failures:
         if owner_of(sig) == prop:
             mine.failures.append((idx, sig, detail))
+        elif owner_of(sig) == "NOTE" and prop == "C10":
+            print("NOTE system-growth: %s (scenario %s): %s" % (sig, idx, json.dumps(detail)[:600]))
     if prop == CRASH_OWNER:
         mine.crashes, mine.timeouts = out.crashes, out.timeouts
     vlib.absorb_replay(v, mine, "system2", scen, crash_sig=lambda sc, t: "system2/crash")
